@@ -106,9 +106,20 @@ fn ext_answer(func: &str, s: &str) -> Result<(String, usize), &'static str> {
     ENV.with(|e| ext_resolve(func, s, &e.borrow().answers))
 }
 
+/// The answer of a check function when the table has none: a pure function of the argument.
+pub fn check_default(func: &str, arg: &str) -> bool {
+    if func.ends_with("chk_nob") {
+        !arg.contains('b')
+    } else if func.ends_with("chk_never") {
+        false
+    } else {
+        true
+    }
+}
+
 fn check_answer(func: &str, arg: String) -> bool {
     log(func, arg.clone());
-    ENV.with(|e| *e.borrow().answers.check.get(&(func.to_string(), arg)).unwrap_or(&true))
+    ENV.with(|e| e.borrow().answers.check.get(&(func.to_string(), arg.clone())).copied().unwrap_or_else(|| check_default(func, &arg)))
 }
 
 fn canon_of<T: Debug>(v: &T) -> String {
@@ -192,6 +203,15 @@ macro_rules! chk {
 chk!(chk0, chkc0, chkx0);
 chk!(chk1, chkc1, chkx1);
 
+/// refuses every value whose canonical form contains the letter b
+pub fn chk_nob<T: Debug>(v: &T) -> bool {
+    check_answer("hrt::user::chk_nob", canon_of(v))
+}
+/// refuses everything (used where a check must never be consulted)
+pub fn chk_never<T: Debug>(v: &T) -> bool {
+    check_answer("hrt::user::chk_never", canon_of(v))
+}
+
 /// Hooks implementation for the reference interpreter backed by the same answer table
 pub struct RefHooks<'a> {
     pub answers: &'a Answers,
@@ -199,10 +219,11 @@ pub struct RefHooks<'a> {
 
 impl<'a> refpeg::interp::Hooks for RefHooks<'a> {
     fn check(&mut self, func: &str, arg: &str) -> bool {
-        *self.answers.check.get(&(func.to_string(), arg.to_string())).unwrap_or(&true)
+        self.answers.check.get(&(func.to_string(), arg.to_string())).copied().unwrap_or_else(|| check_default(func, arg))
     }
     fn char_check(&mut self, func: &str, c: char) -> bool {
-        *self.answers.check.get(&(func.to_string(), format!("{:?}", c))).unwrap_or(&true)
+        let arg = format!("{:?}", c);
+        self.answers.check.get(&(func.to_string(), arg.clone())).copied().unwrap_or_else(|| check_default(func, &arg))
     }
     fn ext(&mut self, func: &str, rest: &str) -> Result<(String, usize), String> {
         ext_resolve(func, rest, self.answers).map_err(|e| e.to_string())
